@@ -18,7 +18,9 @@ NoD == [m |-> 0, s |-> -1]
 Account == "Assets:Src"
 Ccy == "CHF"
 
-\* entry: [cd |-> "CRDT"|"DBIT", amt, vday, bday, charge, details |-> Seq([amt, charge, rev, figures])]
+\* entry: [cd |-> "CRDT"|"DBIT", amt, vday, bday, charge, sameref, details |-> Seq([amt, charge, rev, figures])]
+\* sameref = TRUE: every detail of the batch repeats the batch's booking reference (the reference is a label, not a
+\* key: each detail is still one transaction)
 \* a detail has its own direction: rev = TRUE means opposite to the entry's (a refund inside a batch of payments);
 \* a charge is included in the amount it stands next to (a detail's, or the entry's own when it has no details);
 \* figures = TRUE: the statement also shows the amount before charges (AmtDtls) - what the other party got is the
@@ -42,7 +44,7 @@ Txn(e, cd, amt, charge, ref) ==
 TxnsOfEntry(e, k) ==
   IF e.details = <<>> THEN <<Txn(e, e.cd, e.amt, e.charge, "")>>
   ELSE [j \in 1..Len(e.details) |-> Txn(e, IF e.details[j].rev THEN Flip(e.cd) ELSE e.cd, e.details[j].amt, e.details[j].charge,
-                                        "R" \o ToString(k) \o "-" \o ToString(j))]
+                                        IF e.sameref THEN "R" \o ToString(k) ELSE "R" \o ToString(k) \o "-" \o ToString(j))]
 RECURSIVE Flatten(_, _)
 Flatten(es, k) == IF k > Len(es) THEN <<>> ELSE TxnsOfEntry(es[k], k) \o Flatten(es, k + 1)
 
